@@ -20,8 +20,8 @@ CONFIGS = {
     # the node starts on a storage that already holds three tombstones: purges of three tombstones with every partial failure
     "K9": dict(Keys={1, 2, 3, 4}, Nodes={1}, Times={0, 3, 4}, MaxReqs=3, WithBulk=False, WithCrash=False, InitTombs={1, 2, 3}),
     # a document that is live, its origin's cut-off moved past it by later operations on both sources, then a late single
-    # request for that document between its stamp and the cut-off (four single requests, stamps 0 / 1 / 4 with F = 2)
-    "K10": dict(Keys={1, 2}, Nodes={1}, Times={0, 1, 4}, MaxReqs=4, WithBulk=False, WithCrash=False),
+    # request for that document between its stamp and the cut-off (four single requests, stamps 0 / 1 / 4 / 5 with F = 2: the later two on the two sources)
+    "K10": dict(Keys={1, 2}, Nodes={1}, Times={0, 1, 4, 5}, MaxReqs=4, WithBulk=False, WithCrash=False),
     "K7": dict(Keys={1, 2}, Nodes={1}, Times={0, 3, 4}, MaxReqs=5, WithBulk=False, WithCrash=False),
 }
 TIERS = {"quick": ["K1", "K3", "K5", "K7", "K8", "K9", "K10"], "thorough": ["K1", "K2", "K3", "K4", "K5", "K6", "K7", "K8", "K9", "K10"]}
